@@ -35,13 +35,16 @@ type params struct {
 	Target int `json:"target,omitempty"`
 	// Gzip: both stations run with GZIP_EXPERIMENT=1 (type D proposals, gzip payload).
 	Gzip bool `json:"gzip,omitempty"`
+	// AllValues (kind values): every byte value at every offset, not only at the structural ones.
+	AllValues bool `json:"all_values,omitempty"`
 }
 
 var Check = &vrt.Check{
 	ID:    "C04",
 	Level: "fault_enumeration",
 	Rule: "for each (sender kind, message) the fault-free session is recorded and the SOH..EOT range located; then one session per alteration: XOR 0x01, XOR 0x80 and +1 at every offset, " +
-		"deletion and insertion (0x00, 0xFF) at every offset, and PRNG checksum-compensating pairs (+d at i, -d at j) over the payload incl. its 6-byte CRC/size header. " +
+		"every other byte value at every structural offset (transfer header, STX/length bytes, EOT, checksum, the payload's 6-byte header) and the special bytes 00 01 02 04 0D '0' FF at every data offset (thorough: every value at every offset of message class 1), " +
+		"deletion and insertion (0x00, 0xFF) at every offset, well-formed multi-byte alterations (extra/repeated/dropped/split/grown/shrunk blocks with the 8-bit checksum kept valid, title/offset fields resized with the header length adjusted), and PRNG checksum-compensating pairs (+d at i, -d at j) over the payload incl. its 6-byte CRC/size header. " +
 		"non-trivial = the altered session got as far as the damaged frame; distinct = (leg, message, alteration)",
 	Assumptions: []string{
 		"an alteration that the independent reference accepts as a fully valid transfer (e.g. an edit of the unprotected title text, a 2^-16 CRC collision) is excluded; if the library then delivers, the content must equal what the reference decoded",
@@ -67,9 +70,12 @@ func plan(seed int64, tier string) []vrt.Case {
 	var cs []vrt.Case
 	for _, leg := range []string{"lib", "ref"} {
 		for _, m := range msgs {
-			for _, kind := range []string{"subst", "delins"} {
+			for _, kind := range []string{"subst", "delins", "values", "struct"} {
 				for sh := 0; sh < shards; sh++ {
-					cs = append(cs, vrt.Case{ID: fmt.Sprintf("%s-m%d-%s-%d", leg, m, kind, sh), Params: vrt.MustParams(params{Seed: seed, Leg: leg, Msg: m, Kind: kind, Shard: sh, Shards: shards}), TimeoutS: 1200})
+					if kind == "struct" && sh > 0 {
+						continue // a few hundred sessions: one shard
+					}
+					cs = append(cs, vrt.Case{ID: fmt.Sprintf("%s-m%d-%s-%d", leg, m, kind, sh), Params: vrt.MustParams(params{Seed: seed, Leg: leg, Msg: m, Kind: kind, Shard: sh, Shards: shards, AllValues: tier == "thorough" && m == 1}), TimeoutS: 1200})
 				}
 			}
 			for sh := 0; sh < shards; sh++ {
@@ -80,8 +86,11 @@ func plan(seed int64, tier string) []vrt.Case {
 	// the damaged transfer inside a block of three accepted messages (first, middle, last position)
 	for _, m := range msgs {
 		for target := 0; target < 3; target++ {
-			for _, kind := range []string{"subst", "pairs"} {
+			for _, kind := range []string{"subst", "pairs", "struct"} {
 				for sh := 0; sh < shards/2; sh++ {
+					if kind == "struct" && sh > 0 {
+						continue
+					}
 					cs = append(cs, vrt.Case{ID: fmt.Sprintf("lib-block3-t%d-m%d-%s-%d", target, m, kind, sh), TimeoutS: 1200,
 						Params: vrt.MustParams(params{Seed: seed, Leg: "lib", Msg: m, Kind: kind, Shard: sh, Shards: shards / 2, Pairs: pairs / len(msgs) / 4, Block: 3, Target: target})})
 				}
@@ -91,8 +100,11 @@ func plan(seed int64, tier string) []vrt.Case {
 	// gzip payloads (GZIP_EXPERIMENT on both stations)
 	for _, leg := range []string{"lib", "ref"} {
 		for _, m := range msgs {
-			for _, kind := range []string{"subst", "pairs"} {
+			for _, kind := range []string{"subst", "pairs", "struct"} {
 				for sh := 0; sh < shards/2; sh++ {
+					if kind == "struct" && sh > 0 {
+						continue
+					}
 					cs = append(cs, vrt.Case{ID: fmt.Sprintf("%s-gzip-m%d-%s-%d", leg, m, kind, sh), TimeoutS: 1200,
 						Params: vrt.MustParams(params{Seed: seed, Leg: leg, Msg: m, Kind: kind, Shard: sh, Shards: shards / 2, Pairs: pairs / len(msgs) / 2, Gzip: true})})
 				}
@@ -493,6 +505,112 @@ func run(c vrt.Case) vrt.Obs {
 		if next() {
 			try(fmt.Sprintf("insert-00@%d", n), []vpipe.Edit{{Off: int64(t.end), Ins: []byte{0}}})
 		}
+	case "values":
+		// every value at every structural byte (transfer header, STX/length bytes, EOT, checksum) and at the
+		// payload's own 6-byte header; the protocol's special bytes at every data offset (thorough: every value everywhere)
+		f, _ := b2fref.ParseFrame(t.stream[t.start:])
+		structural := map[int]bool{}
+		hdrEnd := 2 + len(f.Title) + 1 + len(f.Offset) + 1
+		for i := 0; i < hdrEnd; i++ {
+			structural[i] = true
+		}
+		off := hdrEnd
+		for bi, bl := range f.Blocks {
+			structural[off], structural[off+1] = true, true
+			if bi == 0 {
+				for j := 0; j < min(bl, 6); j++ {
+					structural[off+2+j] = true
+				}
+			}
+			off += 2 + bl
+		}
+		structural[off], structural[off+1] = true, true
+		specials := []byte{0x00, 0x01, 0x02, 0x04, 0x0d, '0', 0xff}
+		for i := 0; i < n; i++ {
+			b := t.stream[t.start+i]
+			if structural[i] || p.AllValues {
+				for v := 0; v < 256; v++ {
+					if byte(v) != b && byte(v) != b^0x01 && byte(v) != b^0x80 && byte(v) != b+1 && next() {
+						try(fmt.Sprintf("subst-val%02x@%d", v, i), []vpipe.Edit{{Off: int64(t.start + i), Del: 1, Ins: []byte{byte(v)}}})
+					}
+				}
+				continue
+			}
+			for _, v := range specials {
+				if v != b && next() {
+					try(fmt.Sprintf("subst-val%02x@%d", v, i), []vpipe.Edit{{Off: int64(t.start + i), Del: 1, Ins: []byte{v}}})
+				}
+			}
+		}
+	case "struct":
+		// well-formed multi-byte alterations: whole extra blocks that keep the 8-bit checksum valid, at every
+		// block boundary and before EOT; a repeated block with the checksum adjusted; the last block grown or
+		// shrunk by k bytes with length byte and checksum adjusted; blocks split in two (same data: the
+		// reference accepts that one).
+		f, _ := b2fref.ParseFrame(t.stream[t.start:])
+		hdrEnd := t.start + 2 + len(f.Title) + 1 + len(f.Offset) + 1
+		var starts []int // stream offsets of the STX bytes, then of EOT
+		off := hdrEnd
+		for _, bl := range f.Blocks {
+			starts = append(starts, off)
+			off += 2 + bl
+		}
+		eot := off
+		starts = append(starts, eot)
+		sumOf := func(b []byte) (s byte) {
+			for _, c := range b {
+				s += c
+			}
+			return
+		}
+		extras := [][]byte{{0x02, 0x01, 0x00}, {0x02, 0x02, 0x01, 0xff}, {0x02, 0x03, 0x80, 0x40, 0x40}, {0x02, 0x04, 0x00, 0x00, 0x00, 0x00}}
+		for bi, at := range starts {
+			for ei, ex := range extras {
+				try(fmt.Sprintf("extra-block%d@b%d", ei, bi), []vpipe.Edit{{Off: int64(at), Ins: ex}})
+			}
+			// an extra block with arbitrary data and the checksum byte adjusted
+			data := []byte{0x11, 0x22, 0x33}
+			ck := t.stream[eot+1] - sumOf(data)
+			try(fmt.Sprintf("extra-block-ck@b%d", bi), []vpipe.Edit{{Off: int64(at), Ins: append([]byte{0x02, 3}, data...)}, {Off: int64(eot + 1), Del: 1, Ins: []byte{ck}}})
+		}
+		for bi, bl := range f.Blocks {
+			at := starts[bi]
+			blk := t.stream[at : at+2+bl]
+			// the block repeated right after itself / before EOT, checksum adjusted
+			ck := t.stream[eot+1] - sumOf(blk[2:])
+			try(fmt.Sprintf("repeat-block@b%d", bi), []vpipe.Edit{{Off: int64(at + 2 + bl), Ins: append([]byte(nil), blk...)}, {Off: int64(eot + 1), Del: 1, Ins: []byte{ck}}})
+			if bi != len(f.Blocks)-1 {
+				try(fmt.Sprintf("repeat-block-at-end@b%d", bi), []vpipe.Edit{{Off: int64(eot), Ins: append([]byte(nil), blk...)}, {Off: int64(eot + 1), Del: 1, Ins: []byte{ck}}})
+			}
+			// the block dropped, checksum adjusted
+			try(fmt.Sprintf("drop-block@b%d", bi), []vpipe.Edit{{Off: int64(at), Del: 2 + bl}, {Off: int64(eot + 1), Del: 1, Ins: []byte{t.stream[eot+1] + sumOf(blk[2:])}}})
+			// split in two at a few points: same data, other framing
+			for _, k := range []int{1, bl / 2, bl - 1} {
+				if k > 0 && k < bl {
+					try(fmt.Sprintf("split-block@b%d.%d", bi, k), []vpipe.Edit{{Off: int64(at + 1), Del: 1, Ins: []byte{byte(k)}}, {Off: int64(at + 2 + k), Ins: []byte{0x02, byte(bl - k)}}})
+				}
+			}
+			// grown by k bytes (zeros: checksum stays valid; other bytes: checksum adjusted), shrunk by k bytes
+			for _, k := range []int{1, 2, 5} {
+				if bl+k <= 255 {
+					try(fmt.Sprintf("grow-block-zeros%d@b%d", k, bi), []vpipe.Edit{{Off: int64(at + 1), Del: 1, Ins: []byte{byte(bl + k)}}, {Off: int64(at + 2 + bl), Ins: make([]byte, k)}})
+					junk := bytes.Repeat([]byte{0x5a}, k)
+					try(fmt.Sprintf("grow-block-ck%d@b%d", k, bi), []vpipe.Edit{{Off: int64(at + 1), Del: 1, Ins: []byte{byte(bl + k)}}, {Off: int64(at + 2 + bl), Ins: junk}, {Off: int64(eot + 1), Del: 1, Ins: []byte{t.stream[eot+1] - sumOf(junk)}}})
+				}
+				if bl-k >= 1 {
+					cut := blk[2+bl-k:]
+					try(fmt.Sprintf("shrink-block-ck%d@b%d", k, bi), []vpipe.Edit{{Off: int64(at + 1), Del: 1, Ins: []byte{byte(bl - k)}}, {Off: int64(at + 2 + bl - k), Del: k}, {Off: int64(eot + 1), Del: 1, Ins: []byte{t.stream[eot+1] + sumOf(cut)}}})
+				}
+			}
+		}
+		// the title grown / shrunk with the header length byte adjusted (the reference accepts a different title text)
+		try("title-grow", []vpipe.Edit{{Off: int64(t.start + 1), Del: 1, Ins: []byte{t.stream[t.start+1] + 1}}, {Off: int64(t.start + 2), Ins: []byte{'X'}}})
+		if len(f.Title) > 1 {
+			try("title-shrink", []vpipe.Edit{{Off: int64(t.start + 1), Del: 1, Ins: []byte{t.stream[t.start+1] - 1}}, {Off: int64(t.start + 2), Del: 1}})
+		}
+		// the offset field changed with the length adjusted
+		try("offset-grow", []vpipe.Edit{{Off: int64(t.start + 1), Del: 1, Ins: []byte{t.stream[t.start+1] + 1}}, {Off: int64(hdrEnd - 1), Ins: []byte{'0'}}})
+		try("offset-one", []vpipe.Edit{{Off: int64(hdrEnd - 2), Del: 1, Ins: []byte{'1'}}})
 	case "pairs":
 		// data byte positions of the frame (inside STX blocks), in stream order
 		f, _ := b2fref.ParseFrame(t.stream[t.start:])
